@@ -295,6 +295,12 @@ _Q = {
 QUOTAS = {"quick": _Q, "thorough": dict(_Q, **{"segmentation._do_segmentation[arm]|held": 5000, "cli.segment[file]|held": 60})}
 
 
+# if the per-arm internal is gone, its quotas are waived and the boundary-only monitor must have decided instead
+QUOTA_WAIVERS = {"monitor-unavailable:segmentation._do_segmentation[arm]": {
+    "waive": [k for k in _Q if k.startswith(("segmentation._do_segmentation", "segmentation.do_segmentation|", "class:arm:", "extra:calls-"))],
+    "require": {"segmentation.do_segmentation[boundary-only]|held": 80}}}
+
+
 def evidence_extra(m, tier):
     return {"schedules": {
         "worker_process_counts_requested": [1, 2, 3, 16],
